@@ -112,9 +112,16 @@ def trailing_shape(rng, max_axes=3, allow_zero=False):
 
 def axis_f(rng, n, kind=None):
     """strictly increasing list of n finite f64 with finite span and finite (n-1)/span"""
-    kind = kind or rng.choice(["unit", "uniform", "geometric", "log", "ulps", "mixed", "random", "evenish"])
+    kind = kind or rng.choice(["unit", "uniform", "geometric", "log", "ulps", "mixed", "random", "evenish", "even"])
     if kind == "unit":
         return [float(i) for i in range(n)]
+    if kind == "even":
+        # exactly evenly spaced (dyadic origin and step: every consecutive difference is the same float), origin away from 0
+        a = rng.choice([-1, 1]) * rng.randint(1, 4000) / 4.0
+        h = rng.randint(1, 64) / 16.0
+        if n >= 3 and rng.random() < 0.5:
+            a = -rng.randint(1, n - 2) * h      # an interior knot is exactly 0: its neighbouring floats are subnormal
+        return [a + i * h for i in range(n)]
     if kind == "evenish" and n >= 4:
         # dyadic even grid with moved interior points (first step == mean step exactly, axis not evenly spaced)
         a = rng.randint(-64, 64) / 4.0
